@@ -4,6 +4,24 @@ fn main() {
     let which = std::env::args().nth(1).unwrap_or_default();
     let vm = new_vm();
     vm.run_io(true);
+    if which == "callreset" {
+        use gluon::vm::api::OwnedFunction;
+        use gluon::vm::thread::ThreadInternal;
+        let src = r#"let h x : Int -> Int = if x #Int== 0 then error "boom" else x
+let f x : Int -> Int = 100 #Int+ h x
+f"#;
+        let (mut f, _) = vm.run_expr::<OwnedFunction<fn(i32) -> i32>>("t", src).unwrap();
+        println!("frames at start: {}", vm.context().frame_level());
+        for i in 0..3 {
+            let r = f.call(0).map_err(|e| e.to_string().lines().next().unwrap_or("").to_string());
+            println!("failing call {} -> {:?}; frames now {}", i, r, vm.context().frame_level());
+        }
+        let r = f.call(2);
+        println!("good call f 2 -> {:?}; frames now {}", r, vm.context().frame_level());
+        let (mut g, _) = vm.run_expr::<OwnedFunction<fn(i32) -> i32>>("t2", r#"let g x : Int -> Int = x #Int* 2 in g"#).unwrap();
+        println!("good call g 3 -> {:?}", g.call(3));
+        if !matches!(r, Ok(102)) { std::process::exit(4); }
+    }
     if which == "lazy" {
         let src = r#"let { lazy } = import! std.lazy in lazy (\_ -> error "fail")"#;
         let (l, _) = vm.run_expr::<OpaqueValue<RootedThread, Hole>>("t", src).unwrap(); let l: L = unsafe { std::mem::transmute(l) };
